@@ -133,7 +133,7 @@ CLAIMED = {
         text="Lean theorems about a model of cif.atom_site: for every row expressible in both formats the assembled text IS the standard PDB line of the same fields (no column shift from altloc, "
         "insertion code, 4-character names, missing-value markers, 8-character coordinates), hence pdb.ATOM reads the same record; the record equals the row's own values; with several models "
         "exactly the rows of the first model number reach Biomolecule. Full strength on the repaired tree (four fix: commits). Model fed with the rows mmcif-pdbx delivers and compared with the real read_cif + Biomolecule; "
-        "oracle = one abstract structure written as PDB and mmCIF by the harness's own writers and read by the real code, plus end-to-end PQRs on a sample.",
+        "oracle = one abstract structure written as PDB and mmCIF by the harness's own writers and read by the real code, plus end-to-end PQRs on a sample. model_interleaving_irrelevant (round 5): two atom_site loops with the same first model number and the same sequence of first-model rows give Biomolecule the same atoms however the rows of the other models are interleaved (row order has no meaning in an mmCIF loop); the generator writes multi-model entries model by model, polymer first, and models interleaved residue by residue.",
         note="only the installed mmcif-pdbx 2.1.0 can be exercised ('any supported version' is partial); header categories are taken from a template (a CIF without them crashes read_cif: outside the generated domain)",
         ref="DESIGN.md §4 C10",
     ),
